@@ -10,10 +10,10 @@ pub fn prop() -> Prop {
     Prop {
         id: "C02",
         level: "model_checking",
-        rule: "values: every string of length <=2 (thorough <=3, 4 over a 16-character core and 5 over an 8-character core) over a 49-character alphabet (all C0 controls, DEL, quote, backslash, slash, U+0080, U+00FF, U+2028/9, U+D7FF, U+E000, U+FFFD, U+FFFF, U+10000, U+1F603, U+10FFFF, 'a') as a value, as a member name and inside an array; 26 boundary numbers; 1000 (thorough 15000) doubles needing 16-17 significant digits given in exponent form (printed plain, re-read by the fixpoint run); 29 computed numbers (results of arithmetic incl. overflow, negative zero, integral floats, exponent spellings); ~90 containers of depth <=3 with 0/1/2 members and 18 array/object chains of depth 8..64; strings of 15..4097 characters with a special character first or last (as value, member name, element) and arrays/objects of 15..1025 members; a position grid (13 atoms of all types incl. exponent forms and a 20-digit integer at every position - only/first/last/middle element or member - of every nesting shape of depth <=3 (thorough 4), members named by each of 10 names: empty, literal-like, number-like, with blank, quote, line feed, non-ASCII) as the stream `value atom value`; x 3 styles x utf8 on/off x 4 row separators; each case = 2 runs (output fed back); non-trivial = a character outside ' '..'~', a number that is not a small integer, or a non-empty container; distinct by construction; 4 inputs x 10 selection sets (rows built by jawk from selections, incl. selections that share a name, where every printed object must still have distinct member names)",
+        rule: "values: every string of length <=2 (thorough <=3, 4 over a 16-character core and 5 over an 8-character core) over a 49-character alphabet (all C0 controls, DEL, quote, backslash, slash, U+0080, U+00FF, U+2028/9, U+D7FF, U+E000, U+FFFD, U+FFFF, U+10000, U+1F603, U+10FFFF, 'a') as a value, as a member name and inside an array; 26 boundary numbers; 1000 (thorough 15000) doubles needing 16-17 significant digits given in exponent form (printed plain, re-read by the fixpoint run); 29 computed numbers (results of arithmetic incl. overflow, negative zero, integral floats, exponent spellings); ~90 containers of depth <=3 with 0/1/2 members and 18 array/object chains of depth 8..64; strings of 15..4097 characters with a special character first or last (as value, member name, element) and arrays/objects of 15..1025 members; strings, arrays and objects of 65535..65537 characters / members; a position grid (13 atoms of all types incl. exponent forms and a 20-digit integer at every position - only/first/last/middle element or member - of every nesting shape of depth <=3 (thorough 4), members named by each of 10 names: empty, literal-like, number-like, with blank, quote, line feed, non-ASCII) as the stream `value atom value`; x 3 styles x utf8 on/off x 4 row separators; each case = 2 runs (output fed back); non-trivial = a character outside ' '..'~', a number that is not a small integer, or a non-empty container; distinct by construction; 4 inputs x 10 selection sets (rows built by jawk from selections, incl. selections that share a name, where every printed object must still have distinct member names)",
         explanation: "stdout is framed by the row separator and each row is read by the independent strict RFC 8259 reader and compared with the reference value; style relations (consise has no insignificant whitespace, one-line no line break, pretty = one element/member per line with indentation c*depth, all three equal after deleting insignificant whitespace) and the byte-for-byte fixpoint of a second run are checked on every case",
         assumptions: COMMON_ASSUMPTIONS.to_vec(),
-        guards: vec!["seventeen-digit-double-in-exponent-form", "position-grid", "separator-of-minus-signs-touching-the-next-row", "selections-sharing-a-name", "size-thresholds", "control-character", "astral-character", "pretty-nested", "computed-non-finite", "separator-without-newline", "utf8-on"],
+        guards: vec!["sixty-five-thousand", "seventeen-digit-double-in-exponent-form", "position-grid", "separator-of-minus-signs-touching-the-next-row", "selections-sharing-a-name", "size-thresholds", "control-character", "astral-character", "pretty-nested", "computed-non-finite", "separator-without-newline", "utf8-on"],
         budget_s: (100, 2400),
         single_worker: false,
         run,
@@ -345,7 +345,10 @@ fn check_item(ctx: &mut Ctx, it: &Item) {
 
 fn repeats_a_name(v: &V) -> bool {
     match v {
-        V::Obj(m) => m.iter().enumerate().any(|(i, (k, x))| m[..i].iter().any(|(k2, _)| k2 == k) || repeats_a_name(x)),
+        V::Obj(m) => {
+            let mut seen = std::collections::HashSet::new();
+            m.iter().any(|(k, x)| !seen.insert(k.as_str()) || repeats_a_name(x))
+        }
         V::Arr(a) => a.iter().any(repeats_a_name),
         _ => false,
     }
@@ -601,7 +604,23 @@ fn run(ctx: &mut Ctx) {
             check_item(ctx, &it);
         }
     }
-    ctx.level_done("size-thresholds(strings-to-4097,containers-to-1025-members)");
+    // 2^16 characters / elements / nesting-free members (counters narrower than the data can reach)
+    for n in [65535usize, 65536, 65537] {
+        for kind in 0..3 {
+            if !ctx.mine() {
+                continue;
+            }
+            ctx.guard("sixty-five-thousand");
+            let v = match kind {
+                0 => V::Str(format!("{}\u{e9}", "a".repeat(n - 1))),
+                1 => V::Arr((0..n).map(|i| V::int((i % 10) as i128)).collect()),
+                _ => V::Obj((0..n).map(|i| (format!("k{i}"), if i % 1000 == 7 { V::Arr(vec![V::Null]) } else { V::Bool(i % 2 == 0) })).collect()),
+            };
+            let it = Item { input: format!("{} 1", to_text(&v)), args: vec![], expected: Some(vec![v.clone(), V::int(1)]), kind: "sixty-five-thousand", nontrivial: true };
+            check_item(ctx, &it);
+        }
+    }
+    ctx.level_done("size-thresholds(strings-to-4097,containers-to-1025-members,and-around-65536)");
     // ---- rows built by selections (the printed row is an object made by jawk, not one it read), incl. selections sharing a name
     let sel_inputs = ["{\"a\": 1, \"b\": \"x\", \"c\": [1, {\"a\": 2}]}", "{\"a\": 1} {\"b\": 2} {\"c\": 3}", "{\"b\": null, \"a\": {\"b\": \"\\u00e9\"}}", "[1, 2] 5 {\"a\": []}"];
     let sel_sets: [&[&str]; 13] = [
